@@ -33,9 +33,10 @@ from __future__ import annotations
 
 import ast
 
-from ..model import unparse
+from ..facts import atoms, edge_for, facts_at, region
+from ..model import parent, unparse
 from ..selftest import V
-from ._util_G import calls_flow, case_constants, const_str, expand, guards_of, is_call_to, reaching
+from ._util_G import assign_nodes, calls_flow, const_str, expand, expand_at, is_call_to, reaching
 
 MOD = "streamflow.cwl.utils"
 FILE = "streamflow/cwl/utils.py"
@@ -58,10 +59,25 @@ META = {
 }
 
 
+def _nid(f, stmt):
+    ids = f.cfg.ids_of(stmt)
+    return ids[0] if ids else None
+
+
+def _at_of(f, expr, default):
+    """CFG node that evaluates `expr` (a node of the analysed tree), else `default`."""
+    ids = f.cfg.node_containing(expr)
+    return ids[0] if ids else default
+
+
 def _kind_of_return(f, r):
-    if isinstance(r.value, ast.Name) and r.value.id == "path":
+    """`unchanged` (the parameter itself), `url` (a `file:` literal is put in front) or `plain`.  The returned value is
+    followed through the definitions that reach *this* return, so `tmp = <expr>; return tmp` on every branch is read
+    like `return <expr>`."""
+    rid = _nid(f, r)
+    ex = expand_at(f, r.value, rid) if rid is not None else expand(f, r.value)
+    if isinstance(ex, ast.Name) and ex.id == "path" and (not assign_nodes(f.cfg, "path") or (rid is not None and reaching(f, "path", rid) == ["param"])):
         return "unchanged", None
-    ex = expand(f, r.value)
     for n in ast.walk(ex):
         s = const_str(n)
         if s is not None and s.startswith("file:"):
@@ -112,9 +128,9 @@ def _rel_subject(c):
     return c.args[0] if c.args and not isinstance(c.args[0], ast.Starred) else None
 
 
-def _const_len(f, e):
+def _const_len(f, e, at=None):
     """Value of a prefix length written as an int literal or as `len('<literal>')`."""
-    e = expand(f, e)
+    e = expand(f, e) if at is None else expand_at(f, e, at)
     if isinstance(e, ast.Constant) and isinstance(e.value, int) and not isinstance(e.value, bool):
         return e.value
     if isinstance(e, ast.Call) and isinstance(e.func, ast.Name) and e.func.id == "len" and len(e.args) == 1 and const_str(e.args[0]) is not None:
@@ -135,11 +151,11 @@ def _source(p, f, e, at, depth=6):
         if one_arg and (is_call_to(p, f, e, *DECODERS, *ENCODERS) or (isinstance(e.func, ast.Name) and e.func.id == "str") or is_call_to(p, f, e, "os.fspath")):
             return _source(p, f, e.args[0], at, depth - 1)
         if isinstance(e.func, ast.Attribute) and e.func.attr == "removeprefix" and one_arg and not e.keywords:
-            lit = const_str(expand(f, e.args[0]))
+            lit = const_str(expand_at(f, e.args[0], at))
             if lit is not None:
                 return [(lit, pr) if c is None else (c, pr or "a prefix is removed twice") for c, pr in _source(p, f, e.func.value, at, depth - 1)]
     elif isinstance(e, ast.Subscript) and isinstance(e.slice, ast.Slice) and e.slice.upper is None and e.slice.step is None and e.slice.lower is not None:
-        k = _const_len(f, e.slice.lower)
+        k = _const_len(f, e.slice.lower, at)
         if k is not None and k >= 0:
             return [(k, pr) if c is None else (c, pr or "a prefix is removed twice") for c, pr in _source(p, f, e.value, at, depth - 1)]
     elif isinstance(e, ast.Name):
@@ -161,7 +177,7 @@ def _source(p, f, e, at, depth=6):
                 out.append((None, f"`{e.id}` is bound by `{f.cfg.nodes[d].text(50)}`"))
         if out:
             return out
-    ex = expand(f, e)
+    ex = expand_at(f, e, at)
     parsed = [c for c in [ex, *ast.walk(ex)] if is_call_to(p, f, c, *URL_PARSERS)]
     if parsed:
         return [(None, f"`{unparse(e)[:60]}` is a component of the parsed URL `{unparse(parsed[0])[:60]}`: the parser cuts the name at `#` and `?` (and strips tab/newline characters), so `file:///old/a#1.txt` is re-based as `/old/a` and the rest of the name is lost")]
@@ -203,7 +219,7 @@ def r1(ctx):
         # d. a separator-aware relative-path operation, re-assembled by path_processor.join
         rel = [c for c in calls if _is_rel(p, f, c)]
         join = [c for c in calls if isinstance(c.func, ast.Attribute) and c.func.attr == "join" and isinstance(c.func.value, ast.Name) and c.func.value.id == "path_processor"]
-        whole = expand(f, r.value)
+        whole = expand_at(f, r.value, rid[0])
         counted = [n for n in ast.walk(whole) if isinstance(n, ast.Subscript) and isinstance(n.slice, ast.Slice)
                    and any(isinstance(x, ast.Name) and x.id in ("old_dir", "new_dir") for x in ast.walk(n.slice))]
         if not rel and counted:
@@ -217,7 +233,7 @@ def r1(ctx):
                func=f, node=r, instance=f"remap_path:{kind}:relative", message=f"{kind} branch {how}")
         # b. operand roles
         if rel and join:
-            bases = [expand(f, b) if b is not None else None for b in map(_rel_base, rel)]
+            bases = [expand_at(f, b, _at_of(f, c, rid[0])) if b is not None else None for c, b in zip(rel, map(_rel_base, rel))]
             rel_ok = all(isinstance(b, ast.Name) and b.id == "old_dir" for b in bases) and not any(
                 isinstance(a, ast.Name) and a.id == "new_dir" for c in rel for a in [*c.args, *(k.value for k in c.keywords)])
             join_ok = all(c.args and isinstance(c.args[0], ast.Name) and c.args[0].id == "new_dir" for c in join)
@@ -232,7 +248,7 @@ def r1(ctx):
                 if subj is None:
                     problems.append(f"`{unparse(c)[:60]}` has no path operand")
                     continue
-                for cut, pr in _source(p, f, subj, rid[0]):
+                for cut, pr in _source(p, f, subj, _at_of(f, c, rid[0])):
                     if pr:
                         problems.append(pr)
                     elif kind == "plain" and cut is not None:
